@@ -2095,17 +2095,30 @@ class Deb822NoDuplicateFieldsParagraphElement(Deb822ParagraphElement):
         # type: () -> int
         return len(self._kvpair_elements)
 
+    def _last_kvpair(self):
+        # type: () -> Optional[Deb822KeyValuePairElement]
+        for last_field_name in reversed(self._kvpair_order):
+            return self._kvpair_elements[cast('_strI', last_field_name)]
+        return None
+
     def order_last(self, field):
         # type: (ParagraphKey) -> None
         """Re-order the given field so it is "last" in the paragraph"""
         unpacked_field, _, _ = _unpack_key(field, raise_if_indexed=True)
+        last_kvpair = self._last_kvpair()
         self._kvpair_order.order_last(unpacked_field)
+        if last_kvpair is not None:
+            # It might be the unterminated last line of the file and no longer be last.
+            last_kvpair.value_element.add_final_newline_if_missing()
 
     def order_first(self, field):
         # type: (ParagraphKey) -> None
         """Re-order the given field so it is "first" in the paragraph"""
         unpacked_field, _, _ = _unpack_key(field, raise_if_indexed=True)
+        last_kvpair = self._last_kvpair()
         self._kvpair_order.order_first(unpacked_field)
+        if last_kvpair is not None:
+            last_kvpair.value_element.add_final_newline_if_missing()
 
     def order_before(self, field, reference_field):
         # type: (ParagraphKey, ParagraphKey) -> None
@@ -2114,7 +2127,10 @@ class Deb822NoDuplicateFieldsParagraphElement(Deb822ParagraphElement):
         The reference field must be present."""
         unpacked_field, _, _ = _unpack_key(field, raise_if_indexed=True)
         unpacked_ref_field, _, _ = _unpack_key(reference_field, raise_if_indexed=True)
+        last_kvpair = self._last_kvpair()
         self._kvpair_order.order_before(unpacked_field, unpacked_ref_field)
+        if last_kvpair is not None:
+            last_kvpair.value_element.add_final_newline_if_missing()
 
     def order_after(self, field, reference_field):
         # type: (ParagraphKey, ParagraphKey) -> None
@@ -2124,7 +2140,10 @@ class Deb822NoDuplicateFieldsParagraphElement(Deb822ParagraphElement):
         """
         unpacked_field, _, _ = _unpack_key(field, raise_if_indexed=True)
         unpacked_ref_field, _, _ = _unpack_key(reference_field, raise_if_indexed=True)
+        last_kvpair = self._last_kvpair()
         self._kvpair_order.order_after(unpacked_field, unpacked_ref_field)
+        if last_kvpair is not None:
+            last_kvpair.value_element.add_final_newline_if_missing()
 
     def iter_keys(self):
         # type: () -> Iterable[ParagraphKey]
@@ -2238,6 +2257,14 @@ class Deb822DuplicateFieldsParagraphElement(Deb822ParagraphElement):
             else:
                 self._kvpair_elements[field_name].append(node)
 
+    def _add_final_newline_to_last_field(self):
+        # type: () -> None
+        # The last field might be the unterminated last line of the file; it
+        # must end on a newline before fields are moved around it.
+        for last_kvpair in reversed(self._kvpair_order):
+            last_kvpair.value_element.add_final_newline_if_missing()
+            break
+
     def _nodes_being_relocated(self, field):
         # type: (ParagraphKey) -> Tuple[List[KVPNode], List[KVPNode]]
         key, index, name_token = _unpack_key(field)
@@ -2259,6 +2286,7 @@ class Deb822DuplicateFieldsParagraphElement(Deb822ParagraphElement):
         assert len(nodes_being_relocated) == 1 or len(nodes) == len(nodes_being_relocated)
 
         kvpair_order = self._kvpair_order
+        self._add_final_newline_to_last_field()
         for node in nodes_being_relocated:
             if kvpair_order.tail_node is node:
                 # Special case for relocating a single node that happens to be the last.
@@ -2280,6 +2308,7 @@ class Deb822DuplicateFieldsParagraphElement(Deb822ParagraphElement):
         assert len(nodes_being_relocated) == 1 or len(nodes) == len(nodes_being_relocated)
 
         kvpair_order = self._kvpair_order
+        self._add_final_newline_to_last_field()
         # Use "reversed" to preserve the relative order of the nodes assuming a bulk reorder
         for node in reversed(nodes_being_relocated):
             if kvpair_order.head_node is node:
@@ -2309,6 +2338,7 @@ class Deb822DuplicateFieldsParagraphElement(Deb822ParagraphElement):
             raise ValueError("Cannot re-order a field relative to itself")
 
         kvpair_order = self._kvpair_order
+        self._add_final_newline_to_last_field()
         for node in nodes_being_relocated:
             kvpair_order.remove_node(node)
             kvpair_order.insert_node_before(node, reference_node)
@@ -2333,6 +2363,7 @@ class Deb822DuplicateFieldsParagraphElement(Deb822ParagraphElement):
             raise ValueError("Cannot re-order a field relative to itself")
 
         kvpair_order = self._kvpair_order
+        self._add_final_newline_to_last_field()
         # Use "reversed" to preserve the relative order of the nodes assuming a bulk reorder
         for node in reversed(nodes_being_relocated):
             kvpair_order.remove_node(node)
